@@ -4,6 +4,7 @@
 -/
 import PercevalModel.Model.C02
 import PercevalModel.Lemmas.C02
+import PercevalModel.Lemmas.FockComp
 
 open Matrix
 
@@ -117,12 +118,117 @@ example : slosPamp exU [1, 1] [2, 0] = ⟨0, 24/25⟩ := by decide +kernel
 example : bulkStates 3 [1, 1, 0] [[some 1, none, none]] = [[1, 1, 0], [1, 0, 1]] := by
   decide +kernel
 
+/-! ### Fock-space composition, normalisation, permutations (`Lemmas/FockComp.lean`) -/
+
+/-- **Fock-space composition law** (Cauchy–Binet for permanents): the amplitudes of `A * B` are the
+composition of those of `B` (applied first) and `A`, summed over the intermediate states of the same
+photon number with weight `1/∏uᵢ!`.  Any field of characteristic zero, in particular `ℂ`. -/
+theorem fock_comp [Field R] [CharZero R] {m : ℕ} (A B : Matrix (Fin m) (Fin m) R) (s t : List ℕ)
+    (hs : s.length = m) (ht : t.length = m) (hst : s.sum = t.sum) :
+    pamp (A * B) s t =
+      ((allStates m s.sum).map fun u => pamp A u t * pamp B s u / (prodFact u : R)).sum :=
+  FockComp.pamp_mul_list A B s t hs ht hst
+
+/-- the same at the executable instance `ℚ[i]` (a commutative ring, not a field in this project) -/
+theorem fock_comp_GQ {m : ℕ} (A B : Matrix (Fin m) (Fin m) GQ) (s t : List ℕ)
+    (hs : s.length = m) (ht : t.length = m) (hst : s.sum = t.sum) :
+    pamp (A * B) s t =
+      ((allStates m s.sum).map fun u =>
+        pamp A u t * pamp B s u * GQ.ofRat (1 / (prodFact u : ℚ))).sum :=
+  FockComp.pamp_mul_GQ A B s t hs ht hst
+
+/-- **a full output distribution sums to one** over exactly the states with the input photon number,
+for every unitary matrix, every (bunched) input — over any `*`-field of characteristic zero -/
+theorem dist_sums_to_one [Field R] [CharZero R] [StarRing R] {m : ℕ}
+    (U : Matrix (Fin m) (Fin m) R) (hU : IsUnitary U) (s : List ℕ) (hs : s.length = m) :
+    ((allStates m s.sum).map fun t =>
+      pamp U s t * star (pamp U s t) / ((prodFact s : R) * (prodFact t : R))).sum = 1 :=
+  FockComp.sum_prob_eq_one_list U hU s hs
+
+/-- … and for the executable probabilities `prob U s t = |pamp|²/(∏s!∏t!)` over `ℚ[i]` -/
+theorem dist_sums_to_one_GQ {m : ℕ} (U : Matrix (Fin m) (Fin m) GQ) (hU : IsUnitary U)
+    (s : List ℕ) (hs : s.length = m) : ((allStates m s.sum).map (prob U s)).sum = 1 :=
+  FockComp.sum_prob_GQ U hU s hs
+
+/-- the identity circuit leaves every Fock state alone -/
+theorem pamp_identity [CommRing R] {m : ℕ} (s t : List ℕ) (hs : s.length = m) (ht : t.length = m)
+    (hst : s.sum = t.sum) :
+    pamp (1 : Matrix (Fin m) (Fin m) R) s t = if t = s then (prodFact s : R) else 0 :=
+  FockComp.pamp_one s t hs ht hst
+
+/-- amplitudes of the adjoint circuit are the conjugates of the reversed amplitudes -/
+theorem pamp_adjoint [CommRing R] [StarRing R] {m : ℕ} (U : Matrix (Fin m) (Fin m) R)
+    (s t : List ℕ) : pamp Uᴴ t s = star (pamp U s t) :=
+  FockComp.pamp_conjTranspose U s t
+
+/-- **`PERM.apply` is sound**: Fock evolution by a permutation matrix (`u[φ j, j] = 1`) is the
+relabelling of the state — photons of mode `j` move to mode `φ j`, amplitude one (un-normalised:
+`∏ sᵢ!`), every other output has amplitude zero; any photon number. -/
+theorem perm_relabel [CommRing R] {m : ℕ} (φ ψ : Fin m → Fin m) (hφψ : ∀ x, φ (ψ x) = x)
+    (hψφ : ∀ x, ψ (φ x) = x) (s t : List ℕ) (hs : s.length = m) (ht : t.length = m)
+    (hst : s.sum = t.sum) :
+    pamp (permMatF (R := R) φ) s t =
+      if t = List.ofFn (fun a : Fin m => s.getD (ψ a).val 0) then (prodFact s : R) else 0 :=
+  FockComp.pamp_permMatF_of_inverse φ ψ hφψ hψφ s t hs ht hst
+
+/-! ### the step-by-step simulator -/
+
+/-- one step of the step-by-step simulator on the table of (un-normalised) amplitudes `f` of the
+`n`-photon space: push every intermediate state `u` through the component `A` -/
+def stepAmps [Field R] {m : ℕ} (A : Matrix (Fin m) (Fin m) R) (n : ℕ) (f : List ℕ → R)
+    (t : List ℕ) : R :=
+  ((allStates m n).map fun u => pamp A u t * f u / (prodFact u : R)).sum
+
+/-- component-by-component propagation, components in the order they are applied -/
+def propagate [Field R] {m : ℕ} (Us : List (Matrix (Fin m) (Fin m) R)) (s : List ℕ) :
+    List ℕ → R :=
+  Us.foldl (fun f A => stepAmps A s.sum f) (fun t => pamp (1 : Matrix (Fin m) (Fin m) R) s t)
+
+/-- the matrix of the same component list (`_compute_circuit_unitary`: each component multiplies on
+the left) -/
+def circuitMatrix [CommRing R] {m : ℕ} (Us : List (Matrix (Fin m) (Fin m) R)) :
+    Matrix (Fin m) (Fin m) R :=
+  Us.foldl (fun M A => A * M) 1
+
+theorem propagate_aux [Field R] [CharZero R] {m : ℕ} (Us : List (Matrix (Fin m) (Fin m) R))
+    (s : List ℕ) (hs : s.length = m) (f : List ℕ → R) (M : Matrix (Fin m) (Fin m) R)
+    (hf : ∀ t ∈ allStates m s.sum, f t = pamp M s t) :
+    ∀ t ∈ allStates m s.sum,
+      Us.foldl (fun f A => stepAmps A s.sum f) f t = pamp (Us.foldl (fun M A => A * M) M) s t := by
+  induction Us generalizing f M with
+  | nil => simpa using hf
+  | cons A rest ih =>
+    intro t ht
+    simp only [List.foldl_cons]
+    apply ih (stepAmps A s.sum f) (A * M) _ t ht
+    intro t' ht'
+    obtain ⟨hl, hn⟩ := (mem_allStates_iff m s.sum t').1 ht'
+    rw [fock_comp A M s t' hs hl hn.symm]
+    unfold stepAmps
+    apply congrArg
+    apply List.map_congr_left
+    intro u hu
+    rw [hf u hu]
+
+/-- **the step-by-step simulator is sound**: propagating the input through the components one after
+the other, over the full intermediate Fock space, yields exactly the amplitudes of the circuit's
+matrix — for every component list, every input and output, every photon number -/
+theorem stepper_sound [Field R] [CharZero R] {m : ℕ} (Us : List (Matrix (Fin m) (Fin m) R))
+    (s t : List ℕ) (hs : s.length = m) (ht : t.length = m) (hst : s.sum = t.sum) :
+    propagate Us s t = pamp (circuitMatrix Us) s t :=
+  propagate_aux Us s hs _ 1 (fun _ _ => rfl) t ((mem_allStates_iff m s.sum t).2 ⟨ht, hst.symm⟩)
+
+
+/-- non-vacuity: the hypotheses of `dist_sums_to_one_GQ` / `fock_comp_GQ` are met by a concrete
+non-symmetric unitary and a bunched two-photon space -/
+example : IsUnitary exU ∧ ([1, 1] : List ℕ).length = 2 ∧ ([2, 0] : List ℕ) ∈ allStates 2 2 :=
+  ⟨by unfold IsUnitary; decide +kernel, rfl, by decide⟩
+
 /-!
-Not proved (stated here so the gap is visible; validated by the correspondence only):
-* `fock_comp`: amplitudes of `V * U` are the Fock-space composition of those of `V` and `U`
-  (what makes the step-by-step simulator and MPS sound), hence `∑_t prob U s t = 1` for unitary `U`;
-* `pamp (permMat σ) s t = if t = permApply σ 0 s then ∏ sᵢ! else 0` for `n > 1`.
-The engines' native kernels (permanent, SLOS/SLAP layers, MPS contraction) are external code.
+Not proved: nothing of the design's stretch list remains open.  What stays outside any theorem: the
+engines' native kernels (permanent, SLOS/SLAP layers, MPS contraction, `StateVector`) are external
+code — for them the model *is* the specification and agreement is established by the correspondence
+only; and the `1/√(∏s!∏t!)` normalisation is irrational, so theorems are about `pamp` and `|pamp|²`.
 -/
 
 end PM.C02
